@@ -884,3 +884,169 @@ Qed.
 Theorem lt_int_float : forall x q, rt_lt (VInt x) (VFloat q) = Ok (q_ltb (x # 1) q) /\
                                    rt_lt (VFloat q) (VInt x) = Ok (q_ltb q (x # 1)).
 Proof. intros. split; reflexivity. Qed.
+
+(* ------------------------------------------------------------------------------------------------ *)
+(* the typing side: on two operands of ONE type that the type checker admits for the operator, the     *)
+(* operator never fails; the only outcome that is not a value is a zero divisor (outside the numbers)  *)
+
+Inductive bop := BEq | BNe | BLt | BLe | BGt | BGe | BAdd | BSub | BMul | BDiv.
+
+(* which operand types typechecker.rs admits for `a o b` with both operands of type t:
+   equ = unify (every type); cmp (and cmp after equ for <= >=): int, float, str, tuples of those;
+   add: int, float, str, tuples; sub / mul / div: int, float, tuples.  Reviewed by hand; compared with the
+   real type checker's accept/reject on generated types by tools/props/c19.py. *)
+Definition admits (o : bop) (t : ty) : bool :=
+  match o with
+  | BEq | BNe => true
+  | BLt | BLe | BGt | BGe => ord_ty t
+  | BAdd => add_ty t
+  | BSub | BMul | BDiv => num_ty t
+  end.
+
+Definition rt_bop (o : bop) (a b : value) : res value :=
+  match o with
+  | BEq => Ok (VBool (rt_eq a b))
+  | BNe => Ok (VBool (rt_neq a b))
+  | BLt => rmap VBool (rt_lt a b)
+  | BLe => rmap VBool (rt_le a b)
+  | BGt => rmap VBool (rt_gt a b)
+  | BGe => rmap VBool (rt_ge a b)
+  | BAdd => rt_add a b
+  | BSub => rt_sub a b
+  | BMul => rt_mul a b
+  | BDiv => rt_div a b
+  end.
+
+(* the type of the result *)
+Fixpoint div_ty (t : ty) : ty :=
+  match t with
+  | TInt | TFloat => TFloat
+  | TTuple ts => TTuple (map (fun t' => div_ty t') ts)
+  | _ => t
+  end.
+
+Definition res_ty (o : bop) (t : ty) : ty :=
+  match o with
+  | BEq | BNe | BLt | BLe | BGt | BGe => TBool
+  | BAdd | BSub | BMul => t
+  | BDiv => div_ty t
+  end.
+
+(* no component of the divisor is zero *)
+Fixpoint nonzero (t : ty) (b : value) {struct t} : Prop :=
+  match t, b with
+  | TInt, VInt y => y <> 0%Z
+  | TFloat, VFloat q => ~ q == 0
+  | TTuple ts, VTuple ys => all2 (fun t' y => nonzero t' y) ts ys
+  | _, _ => False
+  end.
+
+Lemma zipM_typed_map : forall (f : ty -> ty) (N : ty -> value -> Prop) (rec : value -> value -> res value) ts,
+  Forall (fun t => forall a b, vty t a -> vty t b -> N t b -> exists r, rec a b = Ok r /\ vty (f t) r) ts ->
+  forall xs ys, all2 vty ts xs -> all2 vty ts ys -> all2 N ts ys ->
+  exists rs, zipM rec xs ys = Ok rs /\ all2 vty (map f ts) rs.
+Proof.
+  intros f N rec ts H. induction H as [|t ts Ht _ IH]; intros [|x xs] [|y ys]; simpl; try tauto.
+  - intros _ _ _. exists []. simpl. auto.
+  - intros [Hx Hxs] [Hy Hys] [Ny Nys]. destruct (Ht x y Hx Hy Ny) as [r [-> Tr]].
+    destruct (IH xs ys Hxs Hys Nys) as [rs [-> Trs]]. exists (r :: rs). simpl. auto.
+Qed.
+
+Lemma zipM_no_err : forall (rec : value -> value -> res value) ts,
+  Forall (fun t => forall a b, vty t a -> vty t b -> rec a b <> Err) ts ->
+  forall xs ys, all2 vty ts xs -> all2 vty ts ys -> zipM rec xs ys <> Err.
+Proof.
+  intros rec ts H. induction H as [|t ts Ht _ IH]; intros [|x xs] [|y ys]; simpl; try tauto; try discriminate.
+  intros [Hx Hxs] [Hy Hys]. specialize (Ht x y Hx Hy). specialize (IH xs ys Hxs Hys).
+  destruct (rec x y); simpl; try congruence. destruct (zipM rec xs ys); simpl; congruence.
+Qed.
+
+Theorem add_closed : forall t, add_ty t = true -> forall a b, vty t a -> vty t b ->
+  exists r, rt_add a b = Ok r /\ vty t r.
+Proof.
+  induction t using ty_ind'; simpl; try discriminate; intros Hn a b Ha Hb.
+  - destruct Ha as [x ->], Hb as [y ->]. exists (VInt (x + y)). split; [reflexivity | eexists; reflexivity].
+  - destruct Ha as [x [-> _]], Hb as [y [-> _]]. exists (VFloat (q_add x y)). split; [reflexivity|].
+    exists (q_add x y). split; [reflexivity | rewrite q_add_spec; apply q_wf_Qred].
+  - destruct Ha as [x ->], Hb as [y ->]. exists (VStr (x ++ y)). split; [reflexivity | eexists; reflexivity].
+  - destruct a; try contradiction. destruct b; try contradiction.
+    change (rt_add (VTuple vs) (VTuple vs0)) with (rt_arith OpAdd (VTuple vs) (VTuple vs0)).
+    rewrite rt_arith_tuple.
+    destruct (zipM_typed (elem_op OpAdd) ts) with (xs := vs) (ys := vs0) as [rs [-> Trs]]; try assumption.
+    + rewrite forallb_forall in Hn. rewrite Forall_forall in *.
+      intros t Hin a b Ta Tb. rewrite elem_op_add. auto.
+    + exists (VTuple rs). split; [reflexivity | exact Trs].
+Qed.
+
+Theorem div_closed : forall t, num_ty t = true -> forall a b, vty t a -> vty t b ->
+  rt_div a b <> Err /\ (nonzero t b -> exists r, rt_div a b = Ok r /\ vty (div_ty t) r).
+Proof.
+  unfold rt_div. induction t using ty_ind'; simpl; try discriminate; intros Hn a b Ha Hb.
+  - destruct Ha as [x ->], Hb as [y ->]. change (rt_arith OpDiv (VInt x) (VInt y)) with (int_op OpDiv x y).
+    cbn [int_op]. destruct (Z.eqb_spec y 0).
+    + split; [discriminate | intros N; contradiction].
+    + split; [discriminate|]. intros _. eexists. split; [reflexivity|]. eexists. split; [reflexivity | apply q_wf_Qred].
+  - destruct Ha as [x [-> _]], Hb as [y [-> _]]. change (rt_arith OpDiv (VFloat x) (VFloat y)) with (float_op OpDiv x y).
+    cbn [float_op]. destruct (q_is_zero y) eqn:E.
+    + split; [discriminate|]. intros N. apply q_is_zero_spec in E. contradiction.
+    + split; [discriminate|]. intros _. eexists. split; [reflexivity|]. eexists. split; [reflexivity | apply q_wf_Qred].
+  - destruct a; try contradiction. destruct b; try contradiction. rewrite rt_arith_tuple.
+    pose proof (num_ty_forall ts Hn) as Hn'. rewrite Forall_forall in H.
+    split.
+    + assert (Z : zipM (elem_op OpDiv) vs vs0 <> Err).
+      { apply (zipM_no_err _ ts); try assumption. apply Forall_forall. intros t Hin a b Ta Tb.
+        change (elem_op OpDiv a b) with (rt_arith OpDiv a b). apply (H t Hin (Hn' t Hin) a b Ta Tb). }
+      destruct (zipM (elem_op OpDiv) vs vs0); simpl; congruence.
+    + intros N.
+      destruct (zipM_typed_map div_ty nonzero (elem_op OpDiv) ts) with (xs := vs) (ys := vs0) as [rs [-> Trs]];
+        try assumption.
+      * apply Forall_forall. intros t Hin a b Ta Tb Nb.
+        change (elem_op OpDiv a b) with (rt_arith OpDiv a b). apply (H t Hin (Hn' t Hin) a b Ta Tb). exact Nb.
+      * exists (VTuple rs). split; [reflexivity | exact Trs].
+Qed.
+
+Lemma q_wf_opp : forall q, q_wf q -> q_wf (Qopp q).
+Proof. intros q H. unfold q_wf. rewrite Qred_opp, H. reflexivity. Qed.
+
+Theorem neg_closed : forall t, num_ty t = true -> forall a, vty t a -> exists r, rt_neg a = Ok r /\ vty t r.
+Proof.
+  induction t using ty_ind'; simpl; try discriminate; intros Hn a Ha.
+  - destruct Ha as [x ->]. eexists. split; [reflexivity | eexists; reflexivity].
+  - destruct Ha as [x [-> W]]. exists (VFloat (Qopp x)). split; [reflexivity|]. eexists. split; [reflexivity | apply q_wf_opp; exact W].
+  - destruct a; try contradiction. change (rt_neg (VTuple vs)) with (rmap VTuple (rmapM rt_neg vs)).
+    pose proof (num_ty_forall ts Hn) as Hn'. rewrite Forall_forall in H.
+    assert (X : exists rs, rmapM rt_neg vs = Ok rs /\ all2 vty ts rs).
+    { clear Hn. revert vs Ha. induction ts as [|t ts IH]; intros [|x xs]; simpl; try tauto.
+      - intros _. exists []. simpl. auto.
+      - intros [Tx Txs]. destruct (H t (or_introl eq_refl) (Hn' t (or_introl eq_refl)) x Tx) as [r [-> Tr]].
+        destruct (IH (fun t' Hin => H t' (or_intror Hin)) (fun t' Hin => Hn' t' (or_intror Hin)) xs Txs) as [rs [-> Trs]].
+        exists (r :: rs). simpl. auto. }
+    destruct X as [rs [-> Trs]]. exists (VTuple rs). split; [reflexivity | exact Trs].
+Qed.
+
+(* ALL PAIRS OF EQUAL TYPE: for every operator, every type the checker admits for it, and every two values of
+   that type, the operator yields a value of the result type -- for `/` provided no component of the divisor
+   is zero, and `/` never yields a run-time error *)
+Theorem bop_defined : forall o t a b, admits o t = true -> vty t a -> vty t b ->
+  rt_bop o a b <> Err /\
+  ((o <> BDiv \/ nonzero t b) -> exists r, rt_bop o a b = Ok r /\ vty (res_ty o t) r).
+Proof.
+  intros o t a b Hadm Ha Hb.
+  assert (B : forall c : bool, vty TBool (VBool c)) by (intros c; exists c; reflexivity).
+  destruct o; simpl in Hadm; cbn [rt_bop res_ty].
+  - split; [discriminate | intros _; eexists; split; [reflexivity | apply B]].
+  - split; [discriminate | intros _; eexists; split; [reflexivity | apply B]].
+  - destruct (lt_struct t Hadm a b Ha Hb) as [c [-> _]]. split; [discriminate | intros _; eexists; split; [reflexivity | apply B]].
+  - destruct (le_struct t Hadm a b Ha Hb) as [c [-> _]]. split; [discriminate | intros _; eexists; split; [reflexivity | apply B]].
+  - unfold rt_gt. destruct (lt_struct t Hadm b a Hb Ha) as [c [-> _]]. split; [discriminate | intros _; eexists; split; [reflexivity | apply B]].
+  - unfold rt_ge. destruct (le_struct t Hadm b a Hb Ha) as [c [-> _]]. split; [discriminate | intros _; eexists; split; [reflexivity | apply B]].
+  - destruct (add_closed t Hadm a b Ha Hb) as [r [-> Tr]]. split; [discriminate | intros _; eauto].
+  - assert (N : OpSub <> OpDiv) by discriminate.
+    destruct (arith_closed OpSub N t Hadm a b Ha Hb) as [r [E Tr]]. unfold rt_sub. rewrite E.
+    split; [discriminate | intros _; eauto].
+  - assert (N : OpMul <> OpDiv) by discriminate.
+    destruct (arith_closed OpMul N t Hadm a b Ha Hb) as [r [E Tr]]. unfold rt_mul. rewrite E.
+    split; [discriminate | intros _; eauto].
+  - destruct (div_closed t Hadm a b Ha Hb) as [NE D]. split; [exact NE|].
+    intros [X|X]; [congruence | apply D; exact X].
+Qed.
